@@ -89,14 +89,14 @@ def fit (input : Array Nat) (modes : Nat) (best : Array (Option Best)) (cap : Na
           if let some k := c40Cost text run then
             if b.cost + 1 + k = cap then return mk [.c40 text run false]
           -- one ASCII codeword after the last complete triple
-          if run.length ≥ 1 then
+          if run.length ≥ 2 then
             let last := run.getLast!
             if let some k := c40Cost text run.dropLast then
               if last < 128 ∧ b.cost + 1 + k + 1 = cap then return mk [.c40 text run.dropLast false, .ascii false [last]]
       if en modes 8 then
         if let some k := x12Cost run then
           if b.cost + 1 + k = cap then return mk [.x12 run false]
-        if run.length ≥ 1 then
+        if run.length ≥ 2 then
           let last := run.getLast!
           if let some k := x12Cost run.dropLast then
             if last < 128 ∧ b.cost + 1 + k + 1 = cap then return mk [.x12 run.dropLast false, .ascii false [last]]
@@ -105,7 +105,8 @@ def fit (input : Array Nat) (modes : Nat) (best : Array (Option Best)) (cap : Na
           if tail ≤ run.length then
             let body := run.take (run.length - tail)
             let tl := run.drop (run.length - tail)
-            if body.length % 4 = 0 ∧ edifactOk body then
+            -- (an empty run followed by ASCII codewords would only smuggle ASCII in: not considered)
+            if body.length % 4 = 0 ∧ body.length ≥ 4 ∧ edifactOk body then
               let used := b.cost + 1 + 3 * (body.length / 4)
               let tcw := asciiCw true tl
               if used ≤ cap ∧ cap - used ≤ 2 ∧ tcw.length ≤ cap - used ∧ (tail = 0 → used = cap) then
